@@ -528,6 +528,11 @@ def const_table_lookup(table, key):
     vals = [v for _, v in items]
     if vals and all(callable(v) for v in vals):
         return Choice([(_z(eq(key, k)), v) for k, v in items]), errs
+    if vals and all(type(v) is str for v in vals):
+        r = seq_lit(vals[-1])
+        for k, v in reversed(items[:-1]):
+            r = z3.If(_z(eq(key, k)), seq_lit(v), r)
+        return SStr(r), errs
     raise Unsupported("symbolic lookup in constant table")
 
 
